@@ -20,7 +20,7 @@ const (
 	UnregisterChannel       string = "minecraft:unregister"
 )
 
-var InvalidIdentifierRegex = regexp.MustCompile(`[^a-z0-9\\-_]*`)
+var InvalidIdentifierRegex = regexp.MustCompile(`[^a-z0-9\-_]*`)
 
 // McBrand determines whether this is a brand plugin message.
 // This is shown on the client.
